@@ -1317,6 +1317,9 @@ def _m_len(ctx, x):
     if isinstance(x, (SBytes, SStr, SSeq)):
         n = x.length()
         c = sym.concrete_int(n)
+        if c is None:
+            # a harness may declare a symbolic value of a FIXED length (VC.bytes_of_length): its len() is that number, not a term
+            c = getattr(ctx, 'fixed_len', {}).get(x.t.get_id())
         return n if c is None else c
     if isinstance(x, SObj):
         m = static_lookup(x.cls, '__len__')
